@@ -93,6 +93,9 @@ def run(prog, rep, tier, cfg):
         rep.need('K7', 'terminate:removed', len(rc) == 1 and result_fate(g, rc[0]) == 'try' and g.dominates(ps[0].bb, rc[0].bb), 'a terminated deal is removed right after processing', X.loc(g))
     # payments move escrow only through transfer_balance: caller set is part of C06 (K5) and re-checked here
     X.callers('K5', ST + 'transfer_balance', callee_is(ST + 'transfer_balance'), [ST + 'process_deal_update', ST + 'process_slashed_deal'], crates=[CR])
+    # ---- running totals (amounts, power, datacap) accumulated in loops keep their earlier contributions
+    X.accumulator_integrity('K12', 'running-totals', ['fil_actor_market'], 'running totals of amounts')
+
 
 
 def payment_window(prog, rep, X, prefix=''):
